@@ -8,7 +8,8 @@ EXPLANATION = ("C09: (R1) every token is re-inserted, positionally intact, throu
                "(R3) contents are attached to the new id and read by the old id under the three guards; (R4) file and "
                "debug id are carried over; (R5) a prefix is stripped only under starts_with of that same prefix, at most "
                "once; (R6) Hermes function maps and raw metadata are permuted by the same old-id mapping with "
-               "non-panicking lookups; (R7) panic-freedom of the rewrite path.")
+               "non-panicking lookups; (R7) panic-freedom of the rewrite path."
+               " (R9) SourceMapBuilder::new stores the file as given; (R9b) local contents are loaded only for sources without contents; (R9c) rewrite is rewrite_with_mapping on every path.")
 NOT_DECIDED = "equality of the resolved strings before and after rewrite for all maps and option combinations (value-level)."
 
 
